@@ -170,6 +170,42 @@ func main() {
 	}
 	c := gen.NewCorpus(rng, *thorough, n2, extra)
 	env := c.Env
+	// Imported packages whose DECLARED NAME is not the tail of their import path (a major-version
+	// directory, a directory with a dash): the text must spell their types with the declared name, which
+	// is the name an importing package sees. Names are distinct from every other package of the corpus
+	// (two packages with the SAME name are finding F27, covered by a separate probe).
+	nd := len(env.Decls)
+	addDecl := func(name, pkg string, u *ty.Ty) int {
+		env.Decls = append(env.Decls, &ty.Decl{Name: name, Pkg: pkg, Under: u})
+		return len(env.Decls) - 1
+	}
+	{
+		b, f := ty.B, ty.F
+		v := addDecl("V", "ext3", ty.St(f("A", b("int")), f("B", ty.Sl(b("string"))), f("P", ty.P(b("int")))))           // nd+0
+		vs := addDecl("VS", "ext3", ty.Sl(ty.N(v)))                                                                      // nd+1
+		vm := addDecl("VM", "ext3", ty.M(b("string"), ty.N(v)))                                                          // nd+2
+		vp := addDecl("VP", "ext3", ty.P(ty.N(v)))                                                                       // nd+3
+		vk := addDecl("K", "ext3", ty.St(f("X", b("int8")), f("Y", b("string"))))                                        // nd+4 comparable
+		l := addDecl("L", "golib", ty.St(f("X", b("int64")), f("Next", ty.P(ty.N(nd+5))), f("V", ty.N(v))))              // nd+5 recursive, mentions ext3
+		ls := addDecl("LS", "golib", ty.Sl(ty.P(ty.N(l))))                                                               // nd+6
+		li := addDecl("LI", "golib", b("int"))                                                                           // nd+7
+		la := addDecl("LA", "golib", ty.Ar(2, ty.N(vk)))                                                                 // nd+8
+		for _, t := range []*ty.Ty{
+			ty.N(v), ty.P(ty.N(v)), ty.Sl(ty.N(v)), ty.Sl(ty.P(ty.N(v))), ty.Ar(2, ty.N(v)), ty.M(b("string"), ty.N(v)), ty.M(ty.N(vk), ty.P(ty.N(v))),
+			ty.N(vs), ty.P(ty.N(vs)), ty.N(vm), ty.N(vp), ty.P(ty.N(vp)), ty.N(vk), ty.M(ty.N(vk), b("int")),
+			ty.N(l), ty.P(ty.N(l)), ty.Sl(ty.N(l)), ty.N(ls), ty.N(li), ty.P(ty.N(li)), ty.Sl(ty.N(li)), ty.M(ty.N(li), ty.N(l)), ty.N(la), ty.P(ty.N(la)),
+			ty.St(f("A", ty.N(v)), f("B", ty.P(ty.N(l))), f("C", ty.N(vs)), f("D", ty.N(ls)), f("E", ty.N(5)), f("F", ty.N(17))),
+			ty.P(ty.St(f("A", ty.P(ty.N(v))), f("M", ty.N(vm)))), ty.M(b("string"), ty.Sl(ty.N(l))),
+		} {
+			c.Types = append(c.Types, t)
+		}
+	}
+	extPkgs := []struct{ name, dir string }{{"ext", "ext"}, {"ext3", "ext3/v2"}, {"golib", "go-lib"}}
+	extImports, extUses := "", ""
+	for _, e := range extPkgs {
+		extImports += fmt.Sprintf("\t\"corpus/%s\"\n", e.dir)
+	}
+	extUses = "var _ ext.XN\nvar _ ext3.V\nvar _ golib.LI\n"
 	// extra shapes the shared corpus does not enumerate: pointer chains, unnamed structs as pointee /
 	// field / element, struct- and array-keyed maps with composite values, named containers as
 	// components, zero-length arrays
@@ -199,15 +235,20 @@ func main() {
 		}
 	}
 
-	// ---- ext package
-	var ext strings.Builder
-	ext.WriteString("// Package ext holds the imported declarations of the corpus.\npackage ext\n\n")
-	for _, d := range env.Decls {
-		if d.Pkg == "ext" {
-			fmt.Fprintf(&ext, "type %s %s\n", d.Name, d.Under.Go(env, "ext"))
+	// ---- imported packages (directory != declared name for ext3, golib)
+	for _, e := range extPkgs {
+		var sb strings.Builder
+		fmt.Fprintf(&sb, "// Package %s holds imported declarations of the corpus.\npackage %s\n\n", e.name, e.name)
+		if e.name == "golib" {
+			sb.WriteString("import ext3 \"corpus/ext3/v2\"\n\nvar _ ext3.V\n\n")
 		}
+		for _, d := range env.Decls {
+			if d.Pkg == e.name {
+				fmt.Fprintf(&sb, "type %s %s\n", d.Name, d.Under.Go(env, e.name))
+			}
+		}
+		write(filepath.Join(*out, filepath.FromSlash(e.dir), "x.go"), sb.String())
 	}
-	write(filepath.Join(*out, "ext", "ext.go"), ext.String())
 
 	var p, m, s2 strings.Builder
 	p.WriteString("package p\n\nimport \"corpus/ext\"\n\nvar _ ext.XN\n\n")
@@ -233,7 +274,7 @@ func main() {
 			}
 		}
 		sb := &strings.Builder{}
-		fmt.Fprintf(sb, "package q%d\n\nimport (\n\t\"corpus/ext\"\n\t\"corpus/p\"\n)\n\nvar _ ext.XN\nvar _ p.NI\n", len(qs))
+		fmt.Fprintf(sb, "package q%d\n\nimport (\n%s\t\"corpus/p\"\n)\n\n%svar _ p.NI\n", len(qs), extImports, extUses)
 		qs = append(qs, sb)
 		qtypes = append(qtypes, []*ty.Ty{t})
 		return len(qs) - 1
@@ -269,7 +310,10 @@ func main() {
 	vg := gen.NewVGen(env, rng, cap)
 	st := stats{}
 	id := 0
-	s2.WriteString("package main\n\nimport (\n\t\"reflect\"\n\n\t\"corpus/ext\"\n\t\"corpus/p\"\n)\n\nvar _ ext.XN\nvar _ p.NI\n\nvar types = map[string]reflect.Type{\n")
+	s2.WriteString("package main\n\nimport (\n\t\"reflect\"\n\n" + extImports + "\t\"corpus/p\"\n)\n\n" + extUses + "var _ p.NI\n\nvar types = map[string]reflect.Type{\n")
+	// the import block of the packages the check assembles from the returned texts: every type package
+	// under its DECLARED name (what `import "path"` binds)
+	write(filepath.Join(*out, "stage2", "header.txt"), "import (\n\t\"reflect\"\n\n"+extImports+"\t\"corpus/p\"\n)\n\n"+extUses+"var _ p.NI\n")
 	nsup := 0
 	for i, t := range c.Types {
 		tn := fmt.Sprintf("T%d", i)
@@ -356,12 +400,12 @@ func main() {
 	must(opsf.Close())
 	write(filepath.Join(*out, "p", "p.go"), p.String())
 	var mh strings.Builder
-	mh.WriteString("package main\n\nimport (\n\t\"encoding/hex\"\n\t\"reflect\"\n\n\t\"corpus/ext\"\n\t\"corpus/p\"\n")
+	mh.WriteString("package main\n\nimport (\n\t\"encoding/hex\"\n\t\"reflect\"\n\n" + extImports + "\t\"corpus/p\"\n")
 	for qi, q := range qs {
 		write(filepath.Join(*out, fmt.Sprintf("q%d", qi), "q.go"), q.String())
 		fmt.Fprintf(&mh, "\t\"corpus/q%d\"\n", qi)
 	}
-	mh.WriteString("\t\"verifharness/rt\"\n)\n\nvar _ ext.XN\nvar _ p.NI\n\nfunc main() { rt.Main() }\n\nfunc init() {\n")
+	mh.WriteString("\t\"verifharness/rt\"\n)\n\n" + extUses + "var _ p.NI\n\nfunc main() { rt.Main() }\n\nfunc init() {\n")
 	write(filepath.Join(*out, "main.go"), mh.String()+m.String()+"}\n")
 	write(filepath.Join(*out, "stage2", "types.go"), s2.String())
 	write(filepath.Join(*out, "stage2", "run.go"), `// Stage 2 of the C06 check: evaluates the texts returned by the derived GoString functions.
